@@ -14,9 +14,9 @@ from tools.vlib import Outcome, sx
 from tools.props import c08_common as C
 
 MANIFEST = {
-    "level_text": "Coq theorems (Properties/C17.v, no axioms) about the run/cache state machine of Model/C08Run.v (writes in the order types.ts, commands.ts, [events.ts], index.ts, [dependency-graph.txt, .dot], record last; a failing record write is a warning), faithful instance: for every state, discovery order and position k of the failing write, a non-forced run that reaches the writes reports Failure when a file of the plan cannot be written, leaves the record untouched and exactly the first k files written; when only the record cannot be written it reports Success with all files in place and no record; afterwards the record never vouches for the current inputs; the next non-forced run regenerates everything and records the current fingerprint; a run that changes the record has written every file first. Lift to histories (Model/C17History.v, Proofs/C17HistoryProofs.v): for every list of run steps - forced or not, fault-free or failing at any write k, each optionally preceded by an arbitrary edit - from the empty directory, the invariant Inv17 (a record on disk is the fingerprint of the generation that wrote it and, unless a failed run has written over the output since, every file of that generation is in place and complete) holds (C17_inv_init, C17_inv_step, C17_history, induction over fold_left), and after any such history a non-forced run that reports success leaves exactly the files of a fresh generation, one that reports up to date does so when the output is clean and outside C08's recorded class (C17_history_success_means_current). Tied to /repo by injecting write faults at open time (EISDIR, unusable output path) and after a successful open (file pre-created as a symbolic link to /dev/full; RLIMIT_FSIZE 0 - the failed write leaves no file behind since the repair C17-1) into first runs, runs after hashed edits and runs over a matching record after a lost file, through every entry point that generates - `generate`, the `init` subcommand, BuildSystem::generate_at_build_time (all compared step by step with the extracted model) and generate_from_config (no record; judged by the oracle and the write plan) - for small and > 8 KiB contents, followed by recovery runs.",
+    "level_text": "Coq theorems (Properties/C17.v, no axioms) about the run/cache state machine of Model/C08Run.v (writes in the order types.ts, commands.ts, [events.ts], index.ts, [dependency-graph.txt, .dot], record last; a failing record write is a warning), faithful instance: for every state, discovery order and position k of the failing write, a non-forced run that reaches the writes reports Failure when a file of the plan cannot be written, leaves the record untouched and exactly the first k files written; when only the record cannot be written it reports Success with all files in place and no record; afterwards the record never vouches for the current inputs; the next non-forced run regenerates everything and records the current fingerprint; a run that changes the record has written every file first. Lift to histories (Model/C17History.v, Proofs/C17HistoryProofs.v): for every list of run steps - forced or not, fault-free or failing at any write k, each optionally preceded by an arbitrary edit - from the empty directory, the invariant Inv17 (a record on disk is the fingerprint of the generation that wrote it and, unless a failed run has written over the output since, every file of that generation is in place and complete) holds (C17_inv_init, C17_inv_step, C17_history, induction over fold_left), and after any such history a non-forced run that reports success leaves exactly the files of a fresh generation, one that reports up to date does so when the output is clean and outside C08's recorded class (C17_history_success_means_current). Tied to /repo by injecting write faults at open time (EISDIR, unusable output path) and after a successful open (file pre-created as a symbolic link to /dev/full; RLIMIT_FSIZE 0 - the failed write leaves no file behind since the repair C17-1) into first runs, runs after hashed edits and runs over a matching record after a lost file, through every entry point that generates - `generate`, the `init` subcommand, BuildSystem::generate_at_build_time (all compared step by step with the extracted model) and generate_from_config (no record; judged by the oracle and the write plan) - for small and > 8 KiB contents, followed by recovery runs. Round 7: faults after the open are a fault kind of the model (Model/C17Trunc.v, Proofs/C17TruncProofs.v): C17_fault_post (C17_fault for FPost k n rm_ok, every prefix length n, removal succeeding or failing: Failure, record untouched, first k files written, the k-th absent or cut to n units, no vouching, next run regenerates), C17_fault_recovery (after ANY failed run, forced or not, over any record, open or post-open fault, outside kf_C17_rmfail: the presence / record test refuses the hit and the next non-forced run regenerates everything), C17_rmfail_refuted (inside the class - removal failed over a matching record - the next run answers up to date over the cut file: known finding C17-2, confirmed on the real binary, CLI and build path), C17_inv_step_post / C17_history_post (Inv17 over histories with the refined faults). Run time: rmfail cases (forced / after an edit / after the loss of another file, CLI and build, none and zod) compared with the extracted run17_c (c17_post).",
     "design_ref": "DESIGN.md section 5 C08, C14, C17; section 11 fault_recovery",
-    "level_note": "Faults are whole-write failures (EISDIR, ENOTDIR/EEXIST on the output path): a crash or short write in the middle of one fs::write is not exercised and appears in the model only as 'the k-th write fails'; the unrestricted history statement (C17_history_full_statement, not asserted) is false on the model: C17_history_refuted is the computed witness [generate A (no events); edit to B (events) and fail at events.ts; revert to A; run] = up to date over B's types.ts/commands.ts - an edit (a revert to the recorded inputs) between fault and recovery, outside the property's quantifier; since C17-1 a revert is only dangerous when the failing file is not in the reverted plan (otherwise the removed file fails the presence test); a failing write of .typecache alone is reported as success with a warning (exit 0), which the check accepts because no binding is missing and no record is kept; recovery is claimed for orders with the same fingerprint (single-file projects in the check).",
+    "level_note": "Post-open faults are inside the Gallina model since round 7 (Model/C17Trunc.v: FPost k n rm_ok = the k-th write fails after the target was truncated and n units were written, then write_or_remove removes it, rm_ok = false: the removal fails and the cut file stays; theorems for every k, every n, both rm_ok; cut is a parameter of the abstract section, the concrete cut_tree cuts the view, not the byte text). The fault streams of earlier rounds (fsize, fsize_graph, devfull, directory obstacles) are still compared with the whole-write fault of Model/C08Run.run (which equals FPost with rm_ok = true by definition of run17: C17_fault_post) and judged by the oracle; only the new rmfail cases (file size limit 0 + output directory without write permission, tool run as uid 65534 when the check runs as root) are compared field by field with the extracted run17_c (c17_post). Only n = 0 is exercised at run time (RLIMIT_FSIZE 0 leaves an empty file; fsize_graph cuts at 3072 bytes but with the removal succeeding); n > 0 with a failing removal is covered by theorem only. kf_C17_rmfail is wider than the defect: it contains [matching record, another file lost, removal failed], where the presence test still refuses the hit and the property holds (model and implementation agree: regenerated) - the class only matters for cases whose oracle fails. A crash of the process in the middle of a write (no removal attempted at all) is the same state as FPost k n false. Not modelled: a removal that succeeds on a path that is a symbolic link (the link goes, the cut target stays elsewhere - exercised by the linked stream, judged by the oracle); the unrestricted history statement (C17_history_full_statement, not asserted) is false on the model: C17_history_refuted is the computed witness [generate A (no events); edit to B (events) and fail at events.ts; revert to A; run] = up to date over B's types.ts/commands.ts - an edit (a revert to the recorded inputs) between fault and recovery, outside the property's quantifier; since C17-1 a revert is only dangerous when the failing file is not in the reverted plan (otherwise the removed file fails the presence test); a failing write of .typecache alone is reported as success with a warning (exit 0), which the check accepts because no binding is missing and no record is kept; recovery is claimed for orders with the same fingerprint (single-file projects in the check).",
     "technique": "Rocq/Coq proof over hand-written model + correspondence check (extracted OCaml vs real binary and Rust driver)"
 }
 
@@ -26,7 +26,7 @@ RULE = ("fault kinds {directory under the file name, symlink to /dev/full, RLIMI
         "obstacle and two recovery runs. All cases are non-trivial; distinct = distinct case descriptions")
 TRUSTED = ["fault injection by pre-created directories / a regular file at the output path (no hook in /repo)",
            "python renderer description -> Rust source / typegen.json / analysed data (tools/props/c08_common.py)"]
-ASSUMPTIONS = ["a write fault is the failure of one whole fs::write call"]
+ASSUMPTIONS = ["a write fault is the failure of one fs::write call, before the open or after it (file truncated, a prefix written), followed by the removal attempt of write_or_remove, which may fail"]
 
 TARGETS = ["types.ts", "commands.ts", "events.ts", "index.ts", "dependency-graph.txt", "dependency-graph.dot", C.CACHE, "<outdir>"]
 EDITS_Q = ["param_type", "field_add", "cmd_add", "mode", "enum_variant"]
